@@ -451,13 +451,13 @@ def run_c15(rep, tier):
     r = gen.rng(seed_, 'C15')
     # (a) design runs
     for cfg, what in (('Purity_design.cfg', 'all interleavings of 2 threads x 3 calls over the pipeline stages with the ownership model'),):
-        out, st = common.run_tlc('Purity', cfg=cfg, workers=common.NCPU, timeout=1500, xmx='8g')
+        out, st = common.run_tlc('Purity', cfg=cfg, workers=common.NCPU, timeout=1500, xmx='8g', coverage=True)
         rep.add_design('Purity', cfg, out, st, what)
-    out, st = common.run_tlc('Purity', cfg='Purity_dev.cfg', workers=4, timeout=600)
+    out, st = common.run_tlc('Purity', cfg='Purity_dev.cfg', workers=4, timeout=600, coverage=True)
     if 'Invariant LibUntouched is violated' not in out and 'is violated' not in out:
         raise common.MachineryError('negative control failed: TLC did not find the violation of the shared-scratch deviation')
     rep.notes['negative_control'] = 'with Dev_SharedScratch enabled TLC reports a violated invariant (as it must)'
-    out, st = common.run_tlc('Purity', cfg='Purity_sched.cfg', workers=8, timeout=900, xmx='8g')
+    out, st = common.run_tlc('Purity', cfg='Purity_sched.cfg', workers=8, timeout=900, xmx='8g', coverage=True)
     rep.add_design('Purity', 'Purity_sched.cfg', out, st, 'all schedules of two concurrent calls with at most 2 context switches (export)')
     schedules = common.parse_vectors(out)
     rep.notes['schedules_exported_by_tlc'] = len(schedules)
